@@ -82,7 +82,9 @@ class AugmentedLagrangianOrder1(AugmentedLagrangianPenaltyHeuristic):
         x_opt: NumberArray,
     ) -> None:  # noqa:D107
         if self.__lagrange_multiplier_calculator is None:
-            self.__lagrange_multiplier_calculator = LagrangeMultipliers(self._problem)
+            self.__lagrange_multiplier_calculator = LagrangeMultipliers(
+                self._problem, reset_counters=False
+            )
 
         self.__lagrange_multiplier_calculator.compute(x_opt)
         lag_ms = self.__lagrange_multiplier_calculator.get_multipliers_arrays()
